@@ -59,6 +59,10 @@ type Encoder struct {
 	// and will change every rollover event occurrence.
 	timestampReference uint32
 
+	// The last timestamp written in any form. The decoder expands a compressed timestamp relative to
+	// the last timestamp it has seen, so a timestamp can only be compressed within 32 seconds after it.
+	lastTimestamp uint32
+
 	mesgDef proto.MessageDefinition // Temporary message definition to reduce alloc.
 
 	// Dynamic-sized buffer for encoding, starting at 1536 bytes (see PR #415 and #416 for details).
@@ -219,6 +223,7 @@ func (e *Encoder) reset() {
 	e.localMesgNumLRU.Reset()
 	e.dataSize = 0
 	e.timestampReference = 0
+	e.lastTimestamp = 0
 }
 
 // Encode encodes FIT into the dest writer. Only FIT's Messages is required, while FileHeader and CRC will be
@@ -507,7 +512,13 @@ func (e *Encoder) encodeMessage(mesg *proto.Message) (err error) {
 }
 
 func (e *Encoder) compressTimestampIntoHeader(mesg *proto.Message) (ok bool) {
-	timestamp := mesg.FieldValueByNum(proto.FieldNumTimestamp).Uint32()
+	field := mesg.FieldByNum(proto.FieldNumTimestamp)
+	if field == nil || field.Value.Type() != proto.TypeUint32 {
+		return false // not supported
+	}
+	timestamp := field.Value.Uint32()
+	lastTimestamp := e.lastTimestamp
+	e.lastTimestamp = timestamp
 	if timestamp == basetype.Uint32Invalid {
 		return false // not supported
 	}
@@ -521,6 +532,9 @@ func (e *Encoder) compressTimestampIntoHeader(mesg *proto.Message) (ok bool) {
 	if (timestamp - e.timestampReference) > proto.CompressedTimeMask {
 		e.timestampReference = timestamp
 		return false // Rollover event occurs, keep it as it is.
+	}
+	if (timestamp - lastTimestamp) > proto.CompressedTimeMask {
+		return false // Not within 32 seconds after the last written timestamp, keep it as it is.
 	}
 
 	timeOffset := byte(timestamp & proto.CompressedTimeMask)
